@@ -101,6 +101,7 @@ def http_cases(ctx, work):
                     outcome = {"st": "returned", "osErr": False, "dataAccess": False}
                     data = []
                     cls = ""
+                    acc = None
                     try:
                         acc = accessor.get_accessor_for_url(url)
                         data = list(acc.fetch_chunk(sd.KEY, coords))
@@ -110,9 +111,30 @@ def http_cases(ctx, work):
                                    "dataAccess": isinstance(e, DataAccessError)}
                     log = server.log()
                     fired = any(e["applied"] != "Normal" for e in log)
+                    # "everything stored earlier remains readable": the other chunks of the dataset,
+                    # fetched afterwards from a healthy server through the SAME accessor object
+                    # (a fresh one only if the faulted call was its construction)
+                    server.arm({})
+                    others = []
+                    # a fault on the info probe legitimately makes the dispatcher pick the plain
+                    # accessor class: that object is simply the wrong one, use a fresh accessor then
+                    info_faulted = any(e["applied"] != "Normal" and e["path"].endswith("/info") for e in log)
+                    acc2 = None if info_faulted else acc
+                    for p2 in (sd.all_pos(cfg["grid"]) if kind != "plain" else stored):
+                        c2 = sd.coords_of(p2, 4, sizes)
+                        exp2 = hd.local_read(d, "chunk", c2)
+                        try:
+                            if acc2 is None:
+                                acc2 = accessor.get_accessor_for_url(url)
+                            got = {"st": "ok", "data": list(acc2.fetch_chunk(sd.KEY, c2))}
+                        except Exception as e2:
+                            got = {"st": "exc", "data": [], "cls": type(e2).__name__}
+                        others.append({"st": got["st"], "data": got["data"], "exp": exp2["data"]})
+                    server.log()
+                    acc = None
                     case = {"mode": "fail", "fired": fired, "optype": "fetch", "outcome": outcome,
                             "ret": {"has": outcome["st"] == "returned", "data": data},
-                            "expRet": loc["data"], "targets": [], "others": [], "gzlayer": False, "failkind": "http"}
+                            "expRet": loc["data"], "targets": [], "others": others, "gzlayer": False, "failkind": "http"}
                     meta = {"scenario": "http." + kind + ".fetch", "plan": {"k": k, "mode": "fail", "err": b},
                             "calls": [[e["m"], e["path"].split("/")[-1]] for e in log], "exc": cls,
                             "target_read": []}
